@@ -182,7 +182,7 @@ func ruleLockset(c *Check, rGuard, rBlock, rOrder, rChan string) {
 					}
 					// discharge: token returned to a channel whose capacity equals the number of tokens (at most once per token)
 					inRelease := e.Fn == fnRelease
-					if !inRelease && !knownFuncs[e.Fn] {
+					if _, known := knownFuncs[e.Fn]; !inRelease && !known {
 						// a helper split off Release, walked as part of it
 						if hf := c.P.Func(e.Fn); hf != nil {
 							inRelease = onlyCalledFrom(c.P, hf, fnRelease)
